@@ -1,0 +1,14 @@
+//go:build verif
+
+package buffnetlink
+
+// Machine-checked contracts (comment-only; read by /verif/engine, never compiled into the binary).
+
+// A-GENLFAMILY (assumed): the gtp5g generic-netlink family, when found, has at least one multicast group.
+//@ func OpenServer(wg *sync.WaitGroup, client *nl.Client, mux *nl.Mux) (s *Server, err error)
+//@   requires wg != nil
+//@   ensures [ok] err == nil ==> s != nil
+//@   modifies nothing
+//@   serves C20 C07
+//@   after call GetFamily:
+//@     assume [A-GENLFAMILY] ret1 == nil ==> ret0 != nil && len(ret0.Groups) > 0
